@@ -34,6 +34,8 @@ def gen_cases(seed, tier, n):
             tracegen.relabel_ranks(c)      # a subset of a job: rank ids are not 0..n-1, and not listed in order
         if i % 8 == 6:
             fw.set_quarter_us(c)           # quarter-microsecond resolution (framework.resolution); the threshold is scaled with the times
+        if i % 16 == 11 and not c["params"].get("quarter_us"):
+            tracegen.scale_case(c, 10 ** 8)     # a long trace: sums beyond 2**24 and 2**31 (the models are homogeneous in time)
         out.append(c)
     return out
 
